@@ -555,6 +555,9 @@ class Suite:
         self.variants = variants
         # shrink(sc) -> iterable of smaller candidate scenarios (delta debugging of a monitor failure)
         self.shrink = shrink
+        # cross(scenarios, run_on): optional hook run before the monitors; run_on(version, lines) executes encodings on the
+        # harness of another module version (used where a property relates the two versions to each other)
+        self.cross = None
 
 
 def _ints(vals):
@@ -571,6 +574,16 @@ def run_suite(pid, suite, scenarios, binaries):
             raise RuntimeError("harness build failed (%s):\n%s" % (suite.version, out))
         binaries[key] = b
     lines = [s.enc for s in scenarios]
+    if suite.cross is not None:
+        def run_on(version, lines2):
+            k2 = (version, False)
+            if k2 not in binaries:
+                b2, out2 = build_harness(version)
+                if b2 is None:
+                    raise RuntimeError("harness build failed (%s):\n%s" % (version, out2))
+                binaries[k2] = b2
+            return run_impl(binaries[k2], lines2, batch_timeout=suite.batch_timeout, tag=pid + suite.name + "x")
+        suite.cross(scenarios, run_on)
     t0 = time.time()
     impl = run_impl(binaries[key], lines, batch_timeout=suite.batch_timeout, tag=pid + suite.name)
     t_impl = time.time() - t0
